@@ -47,7 +47,9 @@ Inductive event :=
 | EvTaskDone (m : Z)         (* done-callback of m's task: release, count, stop decision *)
 | EvStop                     (* stop requested from outside (signal, finish_gracefully) *)
 | EvCancelLoop (q : Z)       (* run_one_queue cancels the loop after the stop event *)
-| EvEnqueue (q m : Z).       (* a producer enqueues m on q *)
+| EvEnqueue (q m : Z)        (* a producer enqueues m on q *)
+| EvCancelLost (q : Z).      (* the cancellation hit consume() after it had taken a message (in the middleware tail of the
+                                call): the loop never saw the message - consumer.finish() returns it (in-memory broker) *)
 
 
 Fixpoint get_loop (q : Z) (ls : list loop) : option loop :=
@@ -170,21 +172,33 @@ Definition step_ev (s : rstate) (e : event) : option rstate :=
       end
   | EvStop => Some (upd s (value s) (waiters s) (loops s) (tasks s) (started s) (processed s) true (backlog s) (leaked s))
   | EvCancelLoop q =>
+      (* since the fix recorded for C03: a loop that is cancelled with a message in hand (waiting for a slot, pausing or
+         un-pausing its consumer) gives the message back itself - the give-back is shielded, it runs to its end *)
       if negb (stop s) then None else
       match get_loop q (loops s) with
       | Some (mkLoop _ LIdle p) =>
           Some (upd s (value s) (waiters s) (set_loop q LDone p (loops s)) (tasks s) (started s) (processed s) (stop s) (backlog s) (leaked s))
       | Some (mkLoop _ (LGot m) p) =>
-          Some (upd s (value s) (waiters s) (set_loop q LDone p (loops s)) (tasks s) (started s) (processed s) (stop s) (backlog s) (leaked s ++ [m]))
+          Some (upd s (value s) (waiters s) (set_loop q (LRejecting m) p (loops s)) (tasks s) (started s) (processed s) (stop s) (backlog s) (leaked s))
       | Some (mkLoop _ (LRejecting m) p) =>
-          (* cancelled while giving a surplus message back: consumer.finish() will return it *)
-          Some (upd s (value s) (waiters s) (set_loop q LDone p (loops s)) (tasks s) (started s) (processed s) (stop s) (backlog s) (leaked s ++ [m]))
+          (* cancelled while giving a message back: the (shielded) give-back goes on *)
+          Some s
+      | Some (mkLoop _ LDone p) =>
+          (* the give-back has just ended and the loop has not returned yet: nothing left to do *)
+          Some s
       | Some (mkLoop _ (LWaiting m) p) =>
-          Some (upd s (value s) (filter (fun x => negb (x =? q)) (waiters s)) (set_loop q LDone p (loops s)) (tasks s) (started s) (processed s) (stop s) (backlog s) (leaked s ++ [m]))
+          Some (upd s (value s) (filter (fun x => negb (x =? q)) (waiters s)) (set_loop q (LRejecting m) p (loops s)) (tasks s) (started s) (processed s) (stop s) (backlog s) (leaked s))
       | Some (mkLoop _ (LGranted m) p) | Some (mkLoop _ (LHold m) p) =>
           (* cancelled with a slot in hand: the slot goes back *)
-          let s1 := upd s (value s) (waiters s) (set_loop q LDone p (loops s)) (tasks s) (started s) (processed s) (stop s) (backlog s) (leaked s ++ [m]) in
+          let s1 := upd s (value s) (waiters s) (set_loop q (LRejecting m) p (loops s)) (tasks s) (started s) (processed s) (stop s) (backlog s) (leaked s) in
           Some (release s1)
+      | _ => None
+      end
+  | EvCancelLost q =>
+      if negb (stop s) then None else
+      match get_loop q (loops s) with
+      | Some (mkLoop _ (LGot m) p) =>
+          Some (upd s (value s) (waiters s) (set_loop q LDone p (loops s)) (tasks s) (started s) (processed s) (stop s) (backlog s) (leaked s ++ [m]))
       | _ => None
       end
   end.
